@@ -143,33 +143,48 @@ Definition qstep_trait (s : twoq) (o : cop) : res (twoq * list Z) :=
   end.
 
 Definition qlist (s : twoq) (i : Z) : option lru :=
-  match i with 0 => Some (recent s) | 1 => Some (frequent s) | 2 => Some (ghost s) | _ => None end.
+  if Z.eqb i 0 then Some (recent s) else if Z.eqb i 1 then Some (frequent s)
+  else if Z.eqb i 2 then Some (ghost s) else None.
 Definition qwith_list (s : twoq) (i : Z) (l : lru) : twoq :=
-  match i with
-  | 0 => with_rfg s l (frequent s) (ghost s)
-  | 1 => with_rfg s (recent s) l (ghost s)
-  | _ => with_rfg s (recent s) (frequent s) l
+  if Z.eqb i 0 then with_rfg s l (frequent s) (ghost s)
+  else if Z.eqb i 1 then with_rfg s (recent s) l (ghost s)
+  else with_rfg s (recent s) (frequent s) l.
+
+Inductive qop :=
+| QTrait (o : cop)
+| QListLen (i : Z)
+| QDebug
+| QIter (i : Z) (args : list Z).
+
+Definition dec_qop (l : list Z) : option qop :=
+  match l with
+  | [50] => Some (QListLen 0)
+  | [51] => Some (QListLen 1)
+  | [52] => Some (QListLen 2)
+  | [26] => Some QDebug
+  | 60 :: i :: args => Some (QIter i args)
+  | _ => option_map QTrait (dec_cop l)
+  end.
+
+Definition qstep (s : twoq) (o : qop) : res (twoq * list Z) :=
+  match o with
+  | QTrait o => qstep_trait s o
+  | QListLen i => Ok (s, match qlist s i with Some l => [zn (llen l)] | None => [] end)
+  | QDebug => Ok (s, [zn (qlen s); zn (qsize s)])
+  | QIter i args =>
+    match qlist s i with
+    | Some l => match run_list_iter l args with
+                | Some (l', out) => Ok (qwith_list s i l', out)
+                | None => Ok (s, [])
+                end
+    | None => Ok (s, [])
+    end
   end.
 
 Definition qstep_enc (s : twoq) (o : list Z) : option (twoq * list Z * list Z) :=
-  match o with
-  | [50] => Some (s, [zn (llen (recent s))], [0])
-  | [51] => Some (s, [zn (llen (frequent s))], [0])
-  | [52] => Some (s, [zn (llen (ghost s))], [0])
-  | [26] => Some (s, [zn (qlen s); zn (qsize s)], [0])
-  | 60 :: i :: args =>
-    match qlist s i with
-    | Some l => match run_list_iter l args with
-                | Some (l', out) => Some (qwith_list s i l', out, [0])
-                | None => None
-                end
-    | None => None
-    end
-  | _ =>
-    match dec_cop o with
-    | Some op => let '(s', out) := lift_res s (qstep_trait s op) in Some (s', out, [0])
-    | None => None
-    end
+  match dec_qop o with
+  | Some op => let '(s', out) := lift_res s (qstep s op) in Some (s', out, [0])
+  | None => None
   end.
 
 Definition qsnap (s : twoq) : list Z :=
@@ -204,37 +219,50 @@ Definition astep_trait (s : arc) (o : cop) : res (arc * list Z) :=
   end.
 
 Definition alist (s : arc) (i : Z) : option lru :=
-  match i with
-  | 0 => Some (t1 s) | 1 => Some (b1 s) | 2 => Some (t2 s) | 3 => Some (b2 s) | _ => None
-  end.
+  if Z.eqb i 0 then Some (t1 s) else if Z.eqb i 1 then Some (b1 s)
+  else if Z.eqb i 2 then Some (t2 s) else if Z.eqb i 3 then Some (b2 s) else None.
 Definition awith_list (s : arc) (i : Z) (l : lru) : arc :=
-  match i with
-  | 0 => mkArc (asize s) (ap s) l (b1 s) (t2 s) (b2 s)
-  | 1 => mkArc (asize s) (ap s) (t1 s) l (t2 s) (b2 s)
-  | 2 => mkArc (asize s) (ap s) (t1 s) (b1 s) l (b2 s)
-  | _ => mkArc (asize s) (ap s) (t1 s) (b1 s) (t2 s) l
+  if Z.eqb i 0 then mkArc (asize s) (ap s) l (b1 s) (t2 s) (b2 s)
+  else if Z.eqb i 1 then mkArc (asize s) (ap s) (t1 s) l (t2 s) (b2 s)
+  else if Z.eqb i 2 then mkArc (asize s) (ap s) (t1 s) (b1 s) l (b2 s)
+  else mkArc (asize s) (ap s) (t1 s) (b1 s) (t2 s) l.
+
+Inductive aop :=
+| ATrait (o : cop)
+| APartition
+| AListLen (i : Z)
+| AIter (i : Z) (args : list Z).
+
+Definition dec_aop (l : list Z) : option aop :=
+  match l with
+  | [70] => Some APartition
+  | [71] => Some (AListLen 0)
+  | [72] => Some (AListLen 2)
+  | [73] => Some (AListLen 1)
+  | [74] => Some (AListLen 3)
+  | 60 :: i :: args => Some (AIter i args)
+  | _ => option_map ATrait (dec_cop l)
+  end.
+
+Definition astep (s : arc) (o : aop) : res (arc * list Z) :=
+  match o with
+  | ATrait o => astep_trait s o
+  | APartition => Ok (s, [zn (ap s)])
+  | AListLen i => Ok (s, match alist s i with Some l => [zn (llen l)] | None => [] end)
+  | AIter i args =>
+    match alist s i with
+    | Some l => match run_list_iter l args with
+                | Some (l', out) => Ok (awith_list s i l', out)
+                | None => Ok (s, [])
+                end
+    | None => Ok (s, [])
+    end
   end.
 
 Definition astep_enc (s : arc) (o : list Z) : option (arc * list Z * list Z) :=
-  match o with
-  | [70] => Some (s, [zn (ap s)], [0])
-  | [71] => Some (s, [zn (llen (t1 s))], [0])
-  | [72] => Some (s, [zn (llen (t2 s))], [0])
-  | [73] => Some (s, [zn (llen (b1 s))], [0])
-  | [74] => Some (s, [zn (llen (b2 s))], [0])
-  | 60 :: i :: args =>
-    match alist s i with
-    | Some l => match run_list_iter l args with
-                | Some (l', out) => Some (awith_list s i l', out, [0])
-                | None => None
-                end
-    | None => None
-    end
-  | _ =>
-    match dec_cop o with
-    | Some op => let '(s', out) := lift_res s (astep_trait s op) in Some (s', out, [0])
-    | None => None
-    end
+  match dec_aop o with
+  | Some op => let '(s', out) := lift_res s (astep s op) in Some (s', out, [0])
+  | None => None
   end.
 
 Definition asnap (s : arc) : list Z :=
